@@ -1,7 +1,607 @@
-/- C13: model not built yet (stub so that the per-property driver links). -/
+/-
+C13 — per-record analysis values (`AnalyzeData`, `SetProjectorsBasis`, `stdDev` in `process_data.go`).
+
+Everything is exact arithmetic over `Rat` (core Lean).  Two layers:
+
+* `Spec.*`   the mathematical DEFINITIONS the property statement names (mean, least-squares slope ×
+             span, mean / mean-square / maximum of the baseline-subtracted pulse, `P·x`, population
+             variance of `x − B·c`), written as sums over lists, no loops, no accumulators;
+* `code*`    the one-pass FORMULAS of the Go code, transcribed loop for loop (running sums, running
+             maximum, the `12/(n(n+1))` slope shortcut, `Σy²/N − 2m·Σy/N + m²`, two-pass `stdDev`).
+
+`Props/C13.lean` proves `code* = Spec.*` for all records, lengths and matrices.  IEEE rounding and
+gonum's kernels are NOT modelled: the driver converts the implementation's float64 results (bit
+patterns) to exact rationals and compares them with the definitions within the tolerances below.
+-/
 import DastardV.Proto
 namespace DastardV.C13
 
-def runLine (_ts : List String) : Verdict := .bad "C13: model not built yet"
+abbrev Q := Rat
+
+def absQ (x : Q) : Q := if x < 0 then -x else x
+
+def maxQ (a b : Q) : Q := if a < b then b else a
+
+def sumQ : List Q → Q
+  | [] => 0
+  | x :: xs => x + sumQ xs
+
+/-- arithmetic mean (`0/0 = 0` in `Rat`: every use is under a non-empty guard) -/
+def meanQ (xs : List Q) : Q := sumQ xs / (xs.length : Q)
+
+/-- `Σ_k f (i+k) y_k` : a sum over a list that also sees the sample index -/
+def isum (f : Q → Q → Q) : Nat → List Q → Q
+  | _, [] => 0
+  | i, y :: ys => f (i : Q) y + isum f (i + 1) ys
+
+/-! ## Samples: `float64(v)` or `float64(int16(v))` -/
+
+/-- the value the code analyses for raw sample `v` (a uint16) -/
+def sampleVal (signed : Bool) (v : Nat) : Int :=
+  if signed then toInt16 (v : Int) else (v : Int)
+
+def dataVec (signed : Bool) (data : List Nat) : List Q :=
+  data.map fun v => ((sampleVal signed v : Int) : Q)
+
+/-! ## Definitions (what the property statement says the values are) -/
+namespace Spec
+
+/-- pre-trigger mean -/
+def pretrigMean (pre : List Q) : Q := meanQ pre
+
+/-- ordinary least-squares slope of `ys` against the sample index `0,1,…,n−1` -/
+def lsSlope (ys : List Q) : Q :=
+  let n : Q := (ys.length : Q)
+  let xbar := isum (fun i _ => i) 0 ys / n
+  let ybar := meanQ ys
+  isum (fun i y => (i - xbar) * (y - ybar)) 0 ys / isum (fun i _ => (i - xbar) * (i - xbar)) 0 ys
+
+/-- pre-trigger delta: least-squares slope times the pre-trigger span (first to last sample) -/
+def pretrigDelta (pre : List Q) : Q := lsSlope pre * ((pre.length : Q) - 1)
+
+/-- pulse average relative to the pre-trigger mean `m` -/
+def pulseAverage (m : Q) (post : List Q) : Q := meanQ (post.map fun y => y - m)
+
+/-- square of the pulse RMS relative to `m` -/
+def pulseMeanSquare (m : Q) (post : List Q) : Q := meanQ (post.map fun y => (y - m) * (y - m))
+
+/-- `p` is the peak value relative to `m`: attained by a post-trigger sample, and no sample is higher -/
+def IsPeak (m : Q) (post : List Q) (p : Q) : Prop :=
+  (∃ y ∈ post, p = y - m) ∧ ∀ y ∈ post, y - m ≤ p
+
+/-- executable form of the peak (`none` when there is no post-trigger sample) -/
+def peak (m : Q) : List Q → Option Q
+  | [] => none
+  | y :: ys => some (ys.foldl maxQ y - m)
+
+/-- inner product `Σ_j a_j b_j` -/
+def dot (a b : List Q) : Q := sumQ (List.zipWith (· * ·) a b)
+
+/-- matrix (list of rows) times vector -/
+def matVec (M : List (List Q)) (x : List Q) : List Q := M.map fun row => dot row x
+
+/-- model coefficients: projectors × record -/
+def coefs (P : List (List Q)) (x : List Q) : List Q := matVec P x
+
+/-- record − basis × coefficients -/
+def residual (x : List Q) (B : List (List Q)) (c : List Q) : List Q :=
+  List.zipWith (· - ·) x (matVec B c)
+
+/-- population variance `(1/L) Σ (r_i − r̄)²` -/
+def popVar (r : List Q) : Q :=
+  let mu := meanQ r
+  meanQ (r.map fun v => (v - mu) * (v - mu))
+
+/-- square of the residual standard deviation -/
+def residVar (P B : List (List Q)) (x : List Q) : Q := popVar (residual x B (coefs P x))
+
+end Spec
+
+/-! ## The code's formulas -/
+
+/-- first loop of `AnalyzeData` over samples `i, i+1, …`: `(val, valPTDelta)` -/
+def preLoop (d0 xmean : Q) : Nat → List Q → Q × Q → Q × Q
+  | _, [], acc => acc
+  | i, y :: ys, (val, ptd) => preLoop d0 xmean (i + 1) ys (val + y, ptd + (y - d0) * ((i : Q) - xmean))
+
+/-- `ptm := val / float64(npre)` -/
+def codePtm (pre : List Q) : Q :=
+  (preLoop (pre.headD 0) (((pre.length : Q) - 1) * (1 / 2)) 0 pre (0, 0)).1 / (pre.length : Q)
+
+/-- `valPTDelta * 12.0 / float64(npre*(npre+1))` (the code reports NaN when `npre ≤ 1`) -/
+def codePtd (pre : List Q) : Option Q :=
+  if pre.length ≤ 1 then none else
+  some ((preLoop (pre.headD 0) (((pre.length : Q) - 1) * (1 / 2)) 0 pre (0, 0)).2 * 12
+        / ((pre.length * (pre.length + 1) : Nat) : Q))
+
+structure PostAcc where
+  sum : Q
+  sum2 : Q
+  mx : Option Q        -- `none` = −∞ (the initial value of the running maximum)
+deriving Repr, DecidableEq
+
+def postStep (a : PostAcc) (v : Q) : PostAcc :=
+  { sum := a.sum + v, sum2 := a.sum2 + v * v,
+    mx := match a.mx with
+      | none => some v
+      | some m => if v > m then some v else some m }
+
+/-- second loop of `AnalyzeData` (post-trigger samples) -/
+def postLoop : List Q → PostAcc → PostAcc
+  | [], a => a
+  | v :: vs, a => postLoop vs (postStep a v)
+
+/-- `sum/N - ptm` -/
+def codeAvg (ptm : Q) (post : List Q) : Q :=
+  (postLoop post ⟨0, 0, none⟩).sum / (post.length : Q) - ptm
+
+/-- `meanSquare := sum2/N - 2*ptm*(sum/N) + ptm*ptm`, clamped at 0 before the square root -/
+def codeMeanSquareRaw (ptm : Q) (post : List Q) : Q :=
+  let a := postLoop post ⟨0, 0, none⟩
+  a.sum2 / (post.length : Q) - 2 * ptm * (a.sum / (post.length : Q)) + ptm * ptm
+
+def codeMeanSquare (ptm : Q) (post : List Q) : Q :=
+  let ms := codeMeanSquareRaw ptm post
+  if ms < 0 then 0 else ms
+
+/-- `max - ptm`, running maximum started at −∞ (`none` only without post-trigger samples) -/
+def codePeak (ptm : Q) (post : List Q) : Option Q :=
+  (postLoop post ⟨0, 0, none⟩).mx.map (· - ptm)
+
+/-- The formula of the tree before the `fix:` commit: running maximum started at the pre-trigger mean. -/
+def codePeakOld (ptm : Q) (post : List Q) : Q :=
+  post.foldl (fun mx v => if v > mx then v else mx) ptm - ptm
+
+/-- a dense matrix: `r × c`, as a list of `r` rows of length `c` -/
+structure Mat where
+  r : Nat
+  c : Nat
+  rows : List (List Q)
+deriving Repr
+
+def Mat.wf (M : Mat) : Prop := M.rows.length = M.r ∧ ∀ row ∈ M.rows, row.length = M.c
+
+/-- `SetProjectorsBasis` accepts exactly these shapes (`nsamp = dsp.NSamples`) -/
+def setPBok (nsamp : Nat) (P B : Mat) : Bool :=
+  P.c == nsamp && B.c == P.r && B.r == nsamp
+
+/-- inner loop of a matrix-vector product: `acc += a[j]*x[j]` -/
+def dotLoop : List Q → List Q → Q → Q
+  | a :: as, b :: bs, acc => dotLoop as bs (acc + a * b)
+  | _, _, acc => acc
+
+/-- `MulVec` -/
+def codeMulVec (M : List (List Q)) (x : List Q) : List Q := M.map fun row => dotLoop row x 0
+
+/-- `SubVec` -/
+def codeSubVec : List Q → List Q → List Q
+  | a :: as, b :: bs => (a - b) :: codeSubVec as bs
+  | _, _ => []
+
+/-- `stdDev` squared (two passes); `none` = NaN for an empty slice -/
+def codeStdDevSq (a : List Q) : Option Q :=
+  if a.length = 0 then none else
+  let s := a.foldl (fun s v => s + v) 0
+  let mean := s / (a.length : Q)
+  let s2 := a.foldl (fun s2 v => s2 + (v - mean) * (v - mean)) 0
+  some (s2 / (a.length : Q))
+
+/-! ## One call of `AnalyzeData` on one record -/
+
+structure Input where
+  npre : Nat                   -- rec.presamples
+  nsamp : Nat                  -- dsp.NSamples (what `SetProjectorsBasis` validates against)
+  signed : Bool
+  data : List Nat              -- raw uint16 samples
+  pb : Option (Mat × Mat)      -- projectors, basis handed to `SetProjectorsBasis` (if any)
+deriving Repr
+
+/-- exact results; `ms`, `rvar` are the SQUARES of `pulseRMS`, `residualStdDev` -/
+structure Out where
+  setErr : Bool                -- `SetProjectorsBasis` returned an error
+  ptm : Q
+  ptd : Option Q               -- `none` = NaN
+  avg : Q
+  ms : Q
+  peak : Q
+  coefs : Option (List Q)      -- `none` = no projectors loaded (fields left untouched)
+  rvar : Option Q
+deriving Repr
+
+inductive Err where
+  | badRecord        -- no samples, presamples = 0 or no post-trigger sample: NaNs / index panic in Go
+  | varLenPanic      -- `panic("projections for variable length records not implemented")`
+  | nanStd           -- cannot happen for a non-empty record
+deriving Repr, DecidableEq
+
+def analyze (inp : Input) : Except Err Out :=
+  let x := dataVec inp.signed inp.data
+  if inp.npre = 0 ∨ x.length ≤ inp.npre then .error .badRecord else
+  let pre := x.take inp.npre
+  let post := x.drop inp.npre
+  let ptm := codePtm pre
+  match codePeak ptm post with
+  | none => .error .badRecord
+  | some pk =>
+    let base : Out := { setErr := false, ptm := ptm, ptd := codePtd pre, avg := codeAvg ptm post,
+                        ms := codeMeanSquare ptm post, peak := pk, coefs := none, rvar := none }
+    match inp.pb with
+    | none => .ok base
+    | some (P, B) =>
+      if !setPBok inp.nsamp P B then .ok { base with setErr := true } else
+      if P.c ≠ x.length then .error .varLenPanic else
+      let c := codeMulVec P.rows x
+      let full := codeMulVec B.rows c
+      let resid := codeSubVec x full
+      match codeStdDevSq resid with
+      | none => .error .nanStd
+      | some v => .ok { base with coefs := some c, rvar := some v }
+
+/-! ## Floating-point values as exact rationals -/
+
+inductive FV where
+  | fin (q : Q)
+  | nan
+  | inf (neg : Bool)
+deriving Repr
+
+def pow2 (e : Int) : Q := if e ≥ 0 then ((2 ^ e.toNat : Nat) : Q) else mkRat 1 (2 ^ (-e).toNat)
+
+/-- `m · 2^e` -/
+def scale2 (m : Nat) (e : Int) : Q := if e ≥ 0 then ((m * 2 ^ e.toNat : Nat) : Q) else mkRat m (2 ^ (-e).toNat)
+
+/-- the exact value of an IEEE-754 binary64 bit pattern -/
+def f64OfBits (b : Nat) : FV :=
+  let sign : Nat := b / 2 ^ 63 % 2
+  let e : Nat := b / 2 ^ 52 % 2048
+  let f : Nat := b % 2 ^ 52
+  if e = 2047 then (if f = 0 then .inf (sign = 1) else .nan) else
+  let m : Nat := if e = 0 then f else 2 ^ 52 + f
+  let ex : Int := (if e = 0 then 1 else (e : Int)) - 1075
+  let q : Q := scale2 m ex
+  .fin (if sign = 1 then -q else q)
+
+/-- the exact value of an IEEE-754 binary32 bit pattern -/
+def f32OfBits (b : Nat) : FV :=
+  let sign : Nat := b / 2 ^ 31 % 2
+  let e : Nat := b / 2 ^ 23 % 256
+  let f : Nat := b % 2 ^ 23
+  if e = 255 then (if f = 0 then .inf (sign = 1) else .nan) else
+  let m : Nat := if e = 0 then f else 2 ^ 23 + f
+  let ex : Int := (if e = 0 then 1 else (e : Int)) - 150
+  let q : Q := scale2 m ex
+  .fin (if sign = 1 then -q else q)
+
+#guard (match f64OfBits 0x3FF0000000000000 with | .fin q => q == 1 | _ => false)
+#guard (match f64OfBits 0xC008000000000000 with | .fin q => q == -3 | _ => false)
+#guard (match f64OfBits 0x3FB999999999999A with | .fin q => q == (3602879701896397 : Q) / 36028797018963968 | _ => false)
+#guard (match f64OfBits 1 with | .fin q => q == pow2 (-1074) | _ => false)
+#guard (match f64OfBits 0x7FF0000000000000 with | .inf false => true | _ => false)
+#guard (match f64OfBits 0x7FF8000000000001 with | .nan => true | _ => false)
+#guard (match f32OfBits 0x3FC00000 with | .fin q => q == (3 : Q) / 2 | _ => false)
+
+/-! ## Tolerances
+
+`u = 2⁻⁵³` is the unit round-off of binary64.  With 16-bit samples every running sum of the code
+(`Σy`, `Σy²`, `Σ(y−y₀)(i−x̄)`) is an exactly representable integer or half-integer as long as
+`npre ≤ 2¹⁷` and `N ≤ 2²⁰` (the generator stays below), so the only roundings are the final
+divisions, products and subtractions.  Each tolerance is the standard forward error bound of those
+few operations with a safety factor of 2–4; quantities that are differences of rounded operands
+get an ABSOLUTE tolerance proportional to the operands (that is what "to floating-point accuracy"
+can mean for them), never a constant.
+
+* `ptm`   one division:                              `2u·|m|`
+* `ptd`   one product, one division:                 `4u·|d|`
+* `avg`   `fl(fl(S/N) − fl(m))`:                      `4u·(|S/N| + |m|)`
+* `peak`  `fl(max − fl(m))`:                          `4u·(|max| + |m|)`
+* `rms²`  `fl(Σy²/N) − fl(2m̂·fl(S/N)) + fl(m̂²)`:        `16u·(Σy²/N + 2|m·S/N| + m²)`, and the square
+          root adds a relative `4u` on the reported value's square
+* `coef`  a length-`L` inner product in any order:    `2(L+2)u·Σ_j |P_kj x_j|`
+* `resid` propagation of the coefficient error through `B`, the `K`-term products, the subtraction
+          and the two-pass standard deviation; compared as `(s−T)₊² ≤ var ≤ (s+T)²` (no square root
+          of a rational is ever taken).
+-/
+
+def u53 : Q := 1 / ((2 ^ 53 : Nat) : Q)
+
+def within (impl dfn tol : Q) : Bool := absQ (impl - dfn) ≤ tol
+
+def sumAbsProd (a b : List Q) : Q := sumQ (List.zipWith (fun p q => absQ (p * q)) a b)
+
+def maxAbs (xs : List Q) : Q := xs.foldl (fun m v => maxQ m (absQ v)) 0
+
+/-- error bound of one computed coefficient -/
+def coefTol (row x : List Q) : Q := 2 * ((x.length : Q) + 2) * u53 * sumAbsProd row x
+
+/-- bound `T` on `|computed std − true std|` of the residual (see the comment above).
+`c` = exact coefficients, `ec` = their error bounds, `r` = exact residual. -/
+def residTolOf (B : List (List Q)) (x c ec r : List Q) : Q :=
+  let K : Q := (c.length : Q)
+  let L : Q := (x.length : Q)
+  let cb := List.zipWith (fun ck ek => absQ ck + ek) c ec          -- bound on |ĉ_k|
+  let g := B.map fun row => sumQ (List.zipWith (fun b v => absQ b * v) row cb)   -- bound on Σ|B_ik ĉ_k|
+  let pe := B.map fun row => sumQ (List.zipWith (fun b e => absQ b * e) row ec)  -- propagated coef error
+  let e := List.zipWith (fun (pg : Q × Q) xi => pg.1 + 2 * (K + 3) * u53 * pg.2 + 2 * u53 * absQ xi) (pe.zip g) x
+  let E := maxAbs e
+  let Rm := maxAbs r + E
+  E + 4 * (L + 6) * u53 * Rm
+
+/-- The exact reference values of the linear-model part, from the DEFINITIONS, with their tolerances. -/
+structure MatRef where
+  c : List Q        -- `Spec.coefs P x`
+  ec : List Q       -- per-coefficient tolerance
+  rvar : Q          -- `Spec.residVar P B x`
+  rtol : Q
+deriving Repr
+
+def mkMatRef (P B : List (List Q)) (x : List Q) : MatRef :=
+  let c := Spec.coefs P x
+  let ec := P.map fun row => coefTol row x
+  let r := Spec.residual x B c
+  { c := c, ec := ec, rvar := Spec.popVar r, rtol := residTolOf B x c ec r }
+
+/-! ## The implementation's output and the oracle -/
+
+structure ImplOut where
+  setErr : Bool
+  ptm : FV
+  ptd : FV
+  avg : FV
+  rms : FV
+  peak : FV
+  coefs : List FV
+  rsd : FV
+  -- the five float32 header fields of the summary message (ptm, peak, rms, avg, resid) and its
+  -- float64 payload, when the harness sent them
+  summary : Option (List FV × List Nat)
+  coefBits : List Nat
+deriving Repr
+
+/-- a reported value must be finite and within `tol` of its definition -/
+def chkVal (sig : String) (impl : FV) (dfn tol : Q) : Option String :=
+  match impl with
+  | .fin q => if within q dfn tol then none
+              else some s!"{sig} reported value differs from its definition by more than the rounding tolerance"
+  | .nan => some s!"{sig}-nan NaN reported where the definition is finite"
+  | .inf _ => some s!"{sig}-inf infinity reported where the definition is finite"
+
+/-- a reported non-negative root `s` of a quantity whose exact square is `v`: `(s−T)₊² ≤ v ≤ (s+T)²` -/
+def chkRoot (sig : String) (impl : FV) (v T : Q) : Option String :=
+  match impl with
+  | .fin s =>
+    let lo := if s - T < 0 then 0 else s - T
+    let hi := s + T
+    if s ≥ 0 ∧ lo * lo ≤ v ∧ v ≤ hi * hi then none
+    else some s!"{sig} reported value differs from its definition by more than the rounding tolerance"
+  | .nan => some s!"{sig}-nan NaN reported where the definition is finite"
+  | .inf _ => some s!"{sig}-inf infinity reported where the definition is finite"
+
+def firstSome : List (Option String) → Option String
+  | [] => none
+  | some s :: _ => some s
+  | none :: r => firstSome r
+
+/-- Everything the oracle needs, computed from the DEFINITIONS only. -/
+structure Ref where
+  m : Q
+  d : Option Q
+  a : Q            -- S/N
+  q2 : Q           -- Σy²/N
+  ms : Q
+  mx : Q           -- max of the post-trigger samples
+  deriving Repr
+
+def mkRef (pre post : List Q) : Option Ref :=
+  match post with
+  | [] => none
+  | y :: ys =>
+    let m := Spec.pretrigMean pre
+    some { m := m, d := if pre.length ≤ 1 then none else some (Spec.pretrigDelta pre),
+           a := meanQ post, q2 := meanQ (post.map fun v => v * v),
+           ms := Spec.pulseMeanSquare m post, mx := ys.foldl maxQ y }
+
+/-- reference values of the linear-model part, when projectors of a compatible shape are loaded -/
+def matRefOf (inp : Input) : Option MatRef :=
+  match inp.pb with
+  | none => none
+  | some (P, B) =>
+    if !setPBok inp.nsamp P B ∨ P.c ≠ inp.data.length then none
+    else some (mkMatRef P.rows B.rows (dataVec inp.signed inp.data))
+
+/-- The oracle, given the (shared) reference values `mr = matRefOf inp`. -/
+def chkC13With (mr : Option MatRef) (inp : Input) (o : ImplOut) : Option String :=
+  let x := dataVec inp.signed inp.data
+  if inp.npre = 0 ∨ x.length ≤ inp.npre then none else
+  let pre := x.take inp.npre
+  let post := x.drop inp.npre
+  match mkRef pre post with
+  | none => none
+  | some r =>
+    let u := u53
+    let scalar := firstSome [
+      chkVal "C13:pretrig-mean" o.ptm r.m (2 * u * absQ r.m),
+      (match r.d with
+       | none => none       -- npre = 1: no slope is defined, nothing is demanded
+       | some d => chkVal "C13:pretrig-delta" o.ptd d (4 * u * absQ d)),
+      chkVal "C13:pulse-average" o.avg (r.a - r.m) (4 * u * (absQ r.a + absQ r.m)),
+      (match o.peak with
+       | .fin p => if r.mx - r.m < 0 ∧ p = 0 then
+                     some "C13:peak-clamped peak value reported as 0 although every post-trigger sample is below the pre-trigger mean (definition: max(post) - mean < 0)"
+                   else chkVal "C13:peak" o.peak (r.mx - r.m) (4 * u * (absQ r.mx + absQ r.m))
+       | _ => chkVal "C13:peak" o.peak (r.mx - r.m) (4 * u * (absQ r.mx + absQ r.m))),
+      (match o.rms with
+       | .fin s => if s ≥ 0 ∧ within (s * s) r.ms (16 * u * (r.q2 + 2 * absQ (r.m * r.a) + r.m * r.m) + 4 * u * (s * s))
+                   then none
+                   else some "C13:pulse-rms reported value differs from its definition by more than the rounding tolerance"
+       | .nan => some "C13:pulse-rms-nan NaN reported where the definition is finite"
+       | .inf _ => some "C13:pulse-rms-inf infinity reported where the definition is finite")]
+    match scalar with
+    | some s => some s
+    | none =>
+      match mr with
+      | none => none
+      | some t =>
+        if o.coefs.length ≠ t.c.length then
+          some "C13:coef-count number of model coefficients differs from the number of projector rows"
+        else
+          let cc := firstSome (List.zipWith (fun (cv : FV × Q) tol =>
+                      chkVal "C13:model-coef" cv.1 cv.2 tol) (o.coefs.zip t.c) t.ec)
+          match cc with
+          | some s => some s
+          | none => chkRoot "C13:resid-stddev" o.rsd t.rvar t.rtol
+
+/-- The property oracle: the implementation's values against the definitions.
+`none` = satisfied; `some "<signature> <detail>"` = violated.  Domain: `1 ≤ npre < len(data)`;
+shapes that `SetProjectorsBasis` must reject impose nothing on the analysis values. -/
+def chkC13 (inp : Input) (o : ImplOut) : Option String := chkC13With (matRefOf inp) inp o
+
+/-- float32 conversion of a float64 value as it appears in the summary message:
+finite ↦ within half a unit in the last place of binary32 (or the subnormal spacing), NaN ↦ NaN. -/
+def chkF32 (v64 v32 : FV) : Bool :=
+  match v64, v32 with
+  | .fin a, .fin b => within b a (absQ a * pow2 (-24) + pow2 (-150))
+  | .nan, .nan => true
+  | .inf s, .inf t => s == t
+  | .fin a, .inf t => absQ a ≥ pow2 127 ∧ (t == (a < 0))      -- overflow of binary32 only
+  | _, _ => false
+
+def chkSummary (o : ImplOut) : Option String :=
+  match o.summary with
+  | none => none
+  | some (hdr, payload) =>
+    match hdr with
+    | [ptm, peak, rms, avg, rsd] =>
+      if !(chkF32 o.ptm ptm && chkF32 o.peak peak && chkF32 o.rms rms && chkF32 o.avg avg && chkF32 o.rsd rsd) then
+        some "C13:summary-float32 a summary-message header value is not the float32 rounding of the record's analysis value"
+      else if payload ≠ o.coefBits then
+        some "C13:summary-coefs the summary-message payload is not the record's model coefficients"
+      else none
+    | _ => some "C13:summary-float32 malformed summary header"
+
+/-! ## Driver -/
+
+def fvEqTol (impl : FV) (model tol : Q) : Bool :=
+  match impl with
+  | .fin q => within q model tol
+  | _ => false
+
+open P in
+def parseMat : P Mat := do
+  let r ← nat
+  let c ← nat
+  let mut rows : List (List Q) := []
+  for _ in [0:r] do
+    let bits ← rep nat c
+    let mut row : List Q := []
+    for b in bits do
+      match f64OfBits b with
+      | .fin q => row := q :: row
+      | _ => fail "non-finite matrix entry"
+    rows := row.reverse :: rows
+  pure { r := r, c := c, rows := rows.reverse }
+
+open P in
+def parseLine : P (String × Input × ImplOut) := do
+  kw "src"; let src ← tok
+  kw "npre"; let npre ← nat
+  kw "nsamp"; let nsamp ← nat
+  kw "signed"; let signed ← bool
+  kw "data"; let data ← list nat
+  if data.any (· ≥ 65536) then fail "sample out of uint16 range"
+  kw "pb"; let has ← nat
+  let pb ← if has == 0 then pure none else do
+    let Pm ← parseMat
+    let Bm ← parseMat
+    pure (some (Pm, Bm))
+  kw "OUT"
+  kw "seterr"; let setErr ← bool
+  kw "ptm"; let ptm ← nat
+  kw "ptd"; let ptd ← nat
+  kw "avg"; let avg ← nat
+  kw "rms"; let rms ← nat
+  kw "peak"; let peak ← nat
+  kw "coefs"; let coefBits ← list nat
+  kw "rsd"; let rsd ← nat
+  kw "sum"; let hs ← nat
+  let summary ← if hs == 0 then pure none else do
+    let hdr ← rep nat 5
+    let pl ← list nat
+    pure (some (hdr.map f32OfBits, pl))
+  pure (src, { npre, nsamp, signed, data, pb },
+        { setErr, ptm := f64OfBits ptm, ptd := f64OfBits ptd, avg := f64OfBits avg, rms := f64OfBits rms,
+          peak := f64OfBits peak, coefs := coefBits.map f64OfBits, rsd := f64OfBits rsd, summary, coefBits })
+
+def isNaN : FV → Bool
+  | .nan => true
+  | _ => false
+
+/-- model (the code's formulas, exact) against the implementation, same tolerances as the oracle -/
+def cmpModel (mr : Option MatRef) (inp : Input) (m : Out) (o : ImplOut) : Option String :=
+  let x := dataVec inp.signed inp.data
+  let post := x.drop inp.npre
+  let u := u53
+  let a := meanQ post
+  let q2 := meanQ (post.map fun v => v * v)
+  if m.setErr != o.setErr then some "seterr (SetProjectorsBasis accept/reject differs from the shape rule)" else
+  if !fvEqTol o.ptm m.ptm (2 * u * absQ m.ptm) then some "ptm" else
+  if !(match m.ptd with
+       | none => isNaN o.ptd
+       | some d => fvEqTol o.ptd d (4 * u * absQ d)) then some "ptd" else
+  if !fvEqTol o.avg m.avg (4 * u * (absQ a + absQ m.ptm)) then some "avg" else
+  if !fvEqTol o.peak m.peak (4 * u * (absQ (m.peak + m.ptm) + absQ m.ptm)) then some "peak" else
+  if !(match o.rms with
+       | .fin s => s ≥ 0 ∧ within (s * s) m.ms (16 * u * (q2 + 2 * absQ (m.ptm * a) + m.ptm * m.ptm) + 4 * u * (s * s))
+       | _ => false) then some "rms" else
+  match m.coefs, m.rvar, mr with
+  | some c, some v, some t =>
+    if c.length != o.coefs.length then some "coef-count" else
+    if !(List.zipWith (fun (cv : FV × Q) tol => fvEqTol cv.1 cv.2 tol) (o.coefs.zip c) t.ec).all id then some "coefs" else
+    (match chkRoot "rsd" o.rsd v t.rtol with
+     | none => none
+     | some _ => some "rsd")
+  | none, none, none =>
+    -- no projectors loaded: the code leaves modelCoefs nil and residualStdDev 0
+    if o.coefs.length != 0 then some "coefs-present-without-projectors" else
+    (match o.rsd with
+     | .fin q => if q = 0 then none else some "rsd-nonzero-without-projectors"
+     | _ => some "rsd-nonzero-without-projectors")
+  | _, _, _ => some "model and reference disagree on whether projectors are loaded"
+
+def runLine (ts : List String) : Verdict :=
+  match P.run parseLine ts with
+  | .error e => .bad e
+  | .ok (src, inp, o) =>
+    let mr := matRefOf inp
+    match chkC13With mr inp o with
+    | some v => .viol v
+    | none =>
+    match chkSummary o with
+    | some v => .viol v
+    | none =>
+    match analyze inp with
+    | .error e => .diff s!"model rejects the input ({repr e}) but the implementation returned values"
+    | .ok m =>
+      match cmpModel mr inp m o with
+      | some w => .diff w
+      | none =>
+        let x := dataVec inp.signed inp.data
+        let post := x.drop inp.npre
+        let varied := match inp.data with
+          | [] => false
+          | d :: ds => ds.any (· != d)
+        let tags := [s!"src-{src}", if inp.signed then "signed" else "unsigned"] ++
+          (if varied then ["varied"] else ["constant"]) ++
+          (if inp.signed && inp.data.any (· ≥ 32768) then ["negative-samples"] else []) ++
+          (if inp.data.any (fun v => v == 0 || v == 65535 || v == 32767 || v == 32768) then ["full-scale"] else []) ++
+          (if m.peak < 0 then ["all-below-baseline"] else []) ++
+          (if varied && m.ms * 1000000 < 1 then ["near-constant"] else []) ++
+          (if inp.npre ≤ 3 then [s!"npre-{inp.npre}"] else []) ++
+          (if post.length == 1 then ["npost-1"] else []) ++
+          (match m.ptd with | none => ["ptd-nan"] | some _ => []) ++
+          (match m.coefs with | some c => ["proj", s!"nbases-{c.length}"] | none => []) ++
+          (if m.setErr then ["shape-rejected"] else []) ++
+          (match o.summary with | some _ => ["summary-msg"] | none => []) ++
+          (if inp.data.length ≥ 1000 then ["len>=1000"] else if inp.data.length ≥ 100 then ["len>=100"] else ["len<100"])
+        .ok tags
 
 end DastardV.C13
